@@ -10,6 +10,22 @@ import Driver.Util
 namespace Driver.Refs
 open Mpt Mpt.Refs
 
+/-- S of C04 for arrays of arrays: the nested value a handle reads (no sharing: every handle is a value of its own) -/
+inductive STree where
+  | none
+  | arr (cs : List STree)
+  deriving Inhabited
+
+mutual
+def STree.render : STree → String
+  | .none => "-"
+  | .arr cs => "A[" ++ STree.renderList cs ++ "]"
+def STree.renderList : List STree → String
+  | [] => ""
+  | [c] => c.render
+  | c :: d :: cs => c.render ++ " " ++ STree.renderList (d :: cs)
+end
+
 structure RSt where
   m : State := {}
   nh : Nat := 0
@@ -18,6 +34,7 @@ structure RSt where
   illegal : String := ""                             -- first illegal observation (sticky, as in the C harness)
   exact : Bool := false                              -- C04: S = every handle is an independent nested value
   sp : List (Option (List (Option (List Nat)))) := []   -- S of the stage part: per handle, per dimension, the values
+  tsp : List STree := []                             -- S of C04: arrays of arrays as nested values
   items : Option Bool := none                        -- C++ part: the handles of this script are item_array (true) / reference_array
   deriving Inhabited
 
@@ -160,7 +177,7 @@ def render (st0 : RSt) (m : State) (verdict ret : String) (final : Bool := false
   let specText (sp : List (Option (List (Option (List Nat))))) : String :=
     String.join ((List.range st.nh).map fun h =>
       s!" h{h}=" ++ match sp.getD h none with
-        | none => "-"
+        | none => (st.tsp.getD h .none).render
         | some dims => "V[" ++ " ".intercalate (dims.map fun d => match d with
             | none => "-"
             | some vs => "D[" ++ " ".intercalate (vs.map toString) ++ "]") ++ "]")
@@ -202,10 +219,11 @@ def step (exact : Bool) (st : RSt) (w : List String) : RSt × String :=
     | some n =>
       if n < 1 ∨ n > 6 then bad
       else
-        let st' : RSt := { m := { hs := List.replicate n none }, nh := n, seenLog := 0, exact := exact, sp := List.replicate n none }
+        let st' : RSt := { m := { hs := List.replicate n none }, nh := n, seenLog := 0, exact := exact, sp := List.replicate n none,
+                           tsp := List.replicate n .none }
         render st' st'.m "ok" "-"
     | none => bad
-  | ["r", "end"] => if st.nh = 0 then bad else render { st with sp := List.replicate st.nh none } (dropAll m st.nh) "ok" "-" true
+  | ["r", "end"] => if st.nh = 0 then bad else render { st with sp := List.replicate st.nh none, tsp := List.replicate st.nh .none } (dropAll m st.nh) "ok" "-" true
   | "r" :: op :: hs :: args =>
     if st.nh = 0 then bad
     else
@@ -215,13 +233,14 @@ def step (exact : Bool) (st : RSt) (w : List String) : RSt × String :=
         match op, args with
         | "drop", [] =>
           let (m1, r) := arrayClone m h none true
-          render { st with sp := st.sp.set h none } m1 (retInt r).1 (retInt r).2
+          render { st with sp := st.sp.set h none, tsp := st.tsp.set h .none } m1 (retInt r).1 (retInt r).2
         | "clone", [h2] =>
           match handleArg st.nh h2 with
           | some h2 =>
             let (m1, r) := arrayClone m h (m.handle h2) false
             let sp := if r < 0 then st.sp else st.sp.set h (st.sp.getD h2 none)
-            render { st with sp := sp } m1 (retInt r).1 (retInt r).2
+            let tsp := if r < 0 then st.tsp else st.tsp.set h (st.tsp.getD h2 .none)
+            render { st with sp := sp, tsp := tsp } m1 (retInt r).1 (retInt r).2
           | none => bad
         | "sput", [dim, k] =>
           match nat? dim, nat? k with
@@ -253,7 +272,7 @@ def step (exact : Bool) (st : RSt) (w : List String) : RSt × String :=
           let nb := m.bufs.length
           -- the element takes its own reference, the handle's reference is released
           let m1 := m.newBuf { ref := 1, kind := .arr, elems := [.arr old] }
-          render st (m1.setHandle h (some nb)) "ok" "-"
+          render { st with tsp := st.tsp.set h (.arr [st.tsp.getD h .none]) } (m1.setHandle h (some nb)) "ok" "-"
         | "push", [h2] =>
           match handleArg st.nh h2 with
           | some h2 =>
@@ -273,7 +292,10 @@ def step (exact : Bool) (st : RSt) (w : List String) : RSt × String :=
                 let m2 := match src with
                   | some a => addrefBuf m1 a
                   | none => m1
-                render st (appendElem m2 h (.arr src)) "ok" "-"
+                let cs := match st.tsp.getD h .none with
+                  | .arr cs => cs
+                  | .none => []
+                render { st with tsp := st.tsp.set h (.arr (cs ++ [st.tsp.getD h2 .none])) } (appendElem m2 h (.arr src)) "ok" "-"
           | none => bad
         | "take", [i] =>
           match nat? i, (m.handle h).bind m.buf? with
@@ -283,7 +305,11 @@ def step (exact : Bool) (st : RSt) (w : List String) : RSt × String :=
               match x.elems[i]? with
               | some (.arr c) =>
                 let (m1, r) := arrayClone m h c false
-                render st m1 (retInt r).1 (retInt r).2
+                -- S: the handle becomes the value of its former element
+                let child := match st.tsp.getD h .none with
+                  | .arr cs => cs.getD i .none
+                  | .none => .none
+                render { st with tsp := if r < 0 then st.tsp else st.tsp.set h child } m1 (retInt r).1 (retInt r).2
               | _ => bad
           | _, _ => bad
         | "takeo", [h2, i] =>
@@ -296,7 +322,10 @@ def step (exact : Bool) (st : RSt) (w : List String) : RSt × String :=
                 match x.elems[i]? with
                 | some (.arr c) =>
                   let (m1, r) := arrayClone m h c false
-                  render st m1 (retInt r).1 (retInt r).2
+                  let child := match st.tsp.getD h2 .none with
+                    | .arr cs => cs.getD i .none
+                    | .none => .none
+                  render { st with tsp := if r < 0 then st.tsp else st.tsp.set h child } m1 (retInt r).1 (retInt r).2
                 | _ => bad
             | _, _ => bad
           | none => bad
@@ -536,6 +565,11 @@ def step (exact : Bool) (st : RSt) (w : List String) : RSt × String :=
                   | none => m2
                 render st (finiElem m3 old) "ok" "ptr"
               | _, _ => render st m1 "refused" "null"
+          | none => bad
+        | "cfgcheck", [n] =>
+          -- self-contained exercise of arrays of config items (harness/drv_refs.c): the script's state does not change
+          match nat? n with
+          | some n => if n > 1000 then bad else render st m "ok" "-"
           | none => bad
         | "identcheck", [n] =>
           -- self-contained exercise of arrays of identifiers (harness/drv_refs.c): nothing of the script's state changes
